@@ -26,6 +26,10 @@ class SegmentTimeline(DashElement):
                     seg.get('d'), msg='S@d is a mandatory attribute', clause='5.3.9.6.2'):
                 continue
             duration = int(seg.get('d'), 10)
+            if t is not None and start is not None and idx > 0:
+                self.attrs.check_equal(
+                    int(t, 10), start,
+                    msg=f'S@t={t} does not continue the timeline, previous S element ends at {start}')
             start = int(t, 10) if t is not None else start
             repeat = int(seg.get('r', '0')) + 1
             if not self.attrs.check_not_none(
